@@ -30,7 +30,7 @@ func main() {
 		}
 		n := 0
 		for _, p := range ps {
-			if strings.Contains(p.Tags[kv[0]], kv[1]) {
+			if v, ok := p.Tags[kv[0]]; ok && strings.Contains(v, kv[1]) {
 				os.WriteFile(filepath.Join(dir, fmt.Sprintf("%03d.wuffs", n)), []byte(p.Src), 0o644)
 				fmt.Println(n, p.Tags)
 				n++
